@@ -154,6 +154,21 @@ func ruleSizePair(c *Ctx) {
 			why = "the value stored into ActualSize is not the running scan offset that becomes the restored writeOff"
 		}
 		c.check(okb, fnName(x.fn), detail, c.P.ipos(x.st), "", why)
+		// the restored offset is the END of the scanned records: the value the scan function returns is the
+		// very offset variable it passes to ReadAt (so every record read, committed or not, is stepped over)
+		if scanFn != nil && scanFn.Blocks != nil {
+			var readOff ssa.Value
+			calls(scanFn, func(ci ssa.CallInstruction) {
+				if calleeIs(ci.Common(), modPath, "DataFile", "ReadAt") && len(ci.Common().Args) >= 2 {
+					readOff = stripConv(resolve1(ci.Common().Args[1]))
+				}
+			})
+			if readOff != nil {
+				c.touch(scanFn)
+				c.check(flowsToReturn(scanFn, readOff), fnName(scanFn), "the restored write offset is the offset at which the scan stopped reading", c.P.pos(scanFn.Pos()), "",
+					"the offset returned for DB.ActiveFile.writeOff is not the offset variable the scan passes to ReadAt: writing resumes before the end of the records already in the segment (e.g. after the last committed record), the next commit overwrites only part of the stale tail, and the bytes behind it are parsed as a record on the next Open")
+			}
+		}
 	}
 	c.minInstances("restores of ActiveFile.writeOff in the open cone", nRestore, 1)
 }
@@ -185,10 +200,8 @@ func flowsToReturn(f *ssa.Function, v ssa.Value) bool {
 			}
 			return false
 		}
-		for _, rv := range resolve(r.Results[0]) {
-			if reach(rv) {
-				return true
-			}
+		if reach(r.Results[0]) {
+			return true
 		}
 	}
 	return false
